@@ -1,5 +1,6 @@
 import Pycoin.Proofs.Message
 import Pycoin.Props.C14
+import Pycoin.Model.P2PObjects
 /-!
 C16 — Peer-to-peer messages round-trip through pack and parse for every message type, and the packed bytes are the
 Bitcoin wire encoding.  Property theorems (helpers without the `C16_` prefix).
@@ -562,3 +563,211 @@ private def pingKw : Kwargs := [("nonce".toList, .int 0x0102030405060708)]
   | .ok d => (match lookup "relay".toList d with | some (.bool false) => true | _ => false) | _ => false)
 
 end Pycoin.C16
+
+/-! # the helper objects as objects: equality, ordering, hashing key, IPv4 embedding -/
+namespace Pycoin.P2P
+open Pycoin.Gen.P2PObjects (ip4Header checkedItemTypes)
+
+theorem bytesLt_irrefl : ∀ a : Bytes, bytesLt a a = false
+  | [] => rfl
+  | a :: as => by simp [bytesLt, bytesLt_irrefl as]
+
+theorem u8_lt_trichotomy (a b : UInt8) : a < b ∨ a = b ∨ b < a := by
+  rcases Nat.lt_trichotomy a.toNat b.toNat with h | h | h
+  · exact Or.inl (UInt8.lt_iff_toNat_lt.mpr h)
+  · exact Or.inr (Or.inl (UInt8.toNat_inj.mp h))
+  · exact Or.inr (Or.inr (UInt8.lt_iff_toNat_lt.mpr h))
+
+theorem u8_lt_asymm {a b : UInt8} (h : a < b) : ¬ b < a := by
+  have := UInt8.lt_iff_toNat_lt.mp h
+  intro h2
+  have := UInt8.lt_iff_toNat_lt.mp h2
+  omega
+
+theorem u8_lt_irrefl (a : UInt8) : ¬ a < a := fun h => u8_lt_asymm h h
+
+/-- exactly one of `a < b`, `a = b`, `b < a` -/
+theorem bytesLt_trichotomy : ∀ a b : Bytes,
+    (bytesLt a b = true ∧ a ≠ b ∧ bytesLt b a = false) ∨ (bytesLt a b = false ∧ a = b ∧ bytesLt b a = false) ∨
+    (bytesLt a b = false ∧ a ≠ b ∧ bytesLt b a = true)
+  | [], [] => by simp [bytesLt]
+  | [], _ :: _ => by simp [bytesLt]
+  | _ :: _, [] => by simp [bytesLt]
+  | a :: as, b :: bs => by
+    rcases u8_lt_trichotomy a b with h | h | h
+    · have h2 := u8_lt_asymm h
+      have hne : a ≠ b := fun e => u8_lt_irrefl b (e ▸ h)
+      simp [bytesLt, h, h2, hne]
+    · subst h
+      have := bytesLt_trichotomy as bs
+      simp only [bytesLt, u8_lt_irrefl a, if_false, List.cons.injEq, true_and, ne_eq]
+      exact this
+    · have h2 := u8_lt_asymm h
+      have hne : a ≠ b := fun e => u8_lt_irrefl b (e ▸ h)
+      simp [bytesLt, h, h2, hne]
+
+theorem bytesLt_trans : ∀ a b c : Bytes, bytesLt a b = true → bytesLt b c = true → bytesLt a c = true
+  | [], [], _, h, _ => by simp [bytesLt] at h
+  | [], _ :: _, [], _, h => by simp [bytesLt] at h
+  | [], _ :: _, _ :: _, _, _ => by simp [bytesLt]
+  | _ :: _, [], _, h, _ => by simp [bytesLt] at h
+  | _ :: _, _ :: _, [], _, h => by simp [bytesLt] at h
+  | a :: as, b :: bs, c :: cs, h1, h2 => by
+    simp only [bytesLt] at h1 h2 ⊢
+    by_cases hab : a < b
+    · by_cases hbc : b < c
+      · have : a < c := UInt8.lt_iff_toNat_lt.mpr (Nat.lt_trans (UInt8.lt_iff_toNat_lt.mp hab) (UInt8.lt_iff_toNat_lt.mp hbc))
+        simp [this]
+      · simp only [hbc, if_false] at h2
+        by_cases hcb : c < b
+        · simp [hcb] at h2
+        · have : b = c := by rcases u8_lt_trichotomy b c with h | h | h <;> first | exact absurd h hbc | exact h | exact absurd h hcb
+          subst this; simp [hab]
+    · simp only [hab, if_false] at h1
+      by_cases hba : b < a
+      · simp [hba] at h1
+      · have : a = b := by rcases u8_lt_trichotomy a b with h | h | h <;> first | exact absurd h hab | exact h | exact absurd h hba
+        subst this
+        simp only [hba, if_false] at h1
+        by_cases hbc : a < c
+        · simp [hbc]
+        · simp only [hbc, if_false] at h2 ⊢
+          by_cases hcb : c < a
+          · simp [hcb] at h2
+          · simp only [hcb, if_false] at h2 ⊢
+            exact bytesLt_trans as bs cs h1 h2
+
+/-- C16.peer_eq_iff: two `PeerAddress` objects compare equal exactly when services, address and port all agree -/
+theorem C16_peer_eq_iff (a b : PeerAddress) : a.eq b = true ↔ a = b := by
+  cases a; cases b
+  simp [PeerAddress.eq, and_assoc]
+
+/-- C16.peer_order_total: `<` on `PeerAddress` is a strict total order compatible with `==`: exactly one of
+`a < b`, `a == b`, `b < a` holds -/
+theorem C16_peer_order_total (a b : PeerAddress) :
+    (a.lt b = true ∧ a.eq b = false ∧ b.lt a = false) ∨ (a.lt b = false ∧ a.eq b = true ∧ b.lt a = false) ∨
+    (a.lt b = false ∧ a.eq b = false ∧ b.lt a = true) := by
+  obtain ⟨s1, i1, p1⟩ := a
+  obtain ⟨s2, i2, p2⟩ := b
+  simp only [PeerAddress.lt, PeerAddress.eq, ne_eq]
+  by_cases hi : i1 = i2
+  · subst hi
+    by_cases hp : p1 = p2
+    · subst hp
+      by_cases hs : s1 = s2
+      · subst hs; simp
+      · rcases Int.lt_trichotomy s1 s2 with h | h | h
+        · have : ¬ s2 < s1 := by omega
+          simp [h, this, hs]
+        · exact absurd h hs
+        · have : ¬ s1 < s2 := by omega
+          have hs' : ¬ s2 = s1 := fun e => hs e.symm
+          simp [h, this, hs, hs']
+    · have hp' : ¬ p2 = p1 := fun e => hp e.symm
+      rcases Int.lt_trichotomy p1 p2 with h | h | h
+      · have : ¬ p2 < p1 := by omega
+        simp [h, this, hp, hp']
+      · exact absurd h hp
+      · have : ¬ p1 < p2 := by omega
+        simp [h, this, hp, hp']
+  · have hi' : ¬ i2 = i1 := fun e => hi e.symm
+    rcases bytesLt_trichotomy i1 i2 with ⟨h1, _, h3⟩ | ⟨_, h2, _⟩ | ⟨h1, _, h3⟩
+    · simp [hi, hi', h1, h3]
+    · exact absurd h2 hi
+    · simp [hi, hi', h1, h3]
+
+/-- C16.peer_lt_trans -/
+theorem C16_peer_lt_trans (a b c : PeerAddress) (h1 : a.lt b = true) (h2 : b.lt c = true) : a.lt c = true := by
+  obtain ⟨s1, i1, p1⟩ := a
+  obtain ⟨s2, i2, p2⟩ := b
+  obtain ⟨s3, i3, p3⟩ := c
+  simp only [PeerAddress.lt, ne_eq] at h1 h2 ⊢
+  by_cases h12 : i1 = i2
+  · subst h12
+    by_cases h23 : i1 = i3
+    · subst h23
+      simp only [not_true_eq_false, if_false] at h1 h2 ⊢
+      by_cases q12 : p1 = p2
+      · subst q12
+        simp only [not_true_eq_false, if_false] at h1
+        by_cases q23 : p1 = p3
+        · subst q23; simp only [not_true_eq_false, if_false] at h2 ⊢
+          simp only [decide_eq_true_eq] at h1 h2 ⊢; omega
+        · simpa [q23] using h2
+      · simp only [q12, not_false_eq_true, if_true, decide_eq_true_eq] at h1
+        by_cases q23 : p2 = p3
+        · subst q23; simp [q12, h1]
+        · simp only [q23, not_false_eq_true, if_true, decide_eq_true_eq] at h2
+          have : ¬ p1 = p3 := by omega
+          simp only [this, not_false_eq_true, if_true, decide_eq_true_eq]; omega
+    · simpa [h23] using h2
+  · simp only [h12, not_false_eq_true, if_true] at h1
+    by_cases h23 : i2 = i3
+    · subst h23; simp [h12, h1]
+    · simp only [h23, not_false_eq_true, if_true] at h2
+      have ht := bytesLt_trans _ _ _ h1 h2
+      have : ¬ i1 = i3 := by
+        intro e; subst e
+        rw [bytesLt_irrefl] at ht; cases ht
+      simp [this, ht]
+
+/-- C16.peer_ip4_embedding: a 4-byte address is stored as the 16-byte IPv4-mapped address (`IP4_HEADER` then the four
+bytes) and `host()` prints those four bytes in dotted decimal; any other length than 4 or 16 is refused -/
+theorem C16_peer_ip4_embedding (s p : Int) (b0 b1 b2 b3 : UInt8) :
+    PeerAddress.new s [b0, b1, b2, b3] p = some ⟨s, ip4Header ++ [b0, b1, b2, b3], p⟩ ∧
+    (PeerAddress.mk s (ip4Header ++ [b0, b1, b2, b3]) p).host =
+      natToDec b0.toNat ++ '.' :: (natToDec b1.toNat ++ '.' :: (natToDec b2.toNat ++ '.' :: natToDec b3.toNat)) ∧
+    (∀ ip : Bytes, ip.length ≠ 4 → ip.length ≠ 16 → PeerAddress.new s ip p = none) ∧
+    (∀ ip : Bytes, ip.length = 16 → PeerAddress.new s ip p = some ⟨s, ip, p⟩) := by
+  refine ⟨by simp [PeerAddress.new, ip4Header], ?_, ?_, ?_⟩
+  · have h1 : ip4Header.isPrefixOf (ip4Header ++ [b0, b1, b2, b3]) = true := by
+      simp [ip4Header, List.isPrefixOf]
+    simp only [PeerAddress.host, h1, if_true]
+    simp [ip4Text, ip4Header, joinWith]
+  · intro ip h4 h16
+    simp [PeerAddress.new, h4, h16]
+  · intro ip h16
+    have : ip.length ≠ 4 := by omega
+    simp [PeerAddress.new, this, h16]
+
+/-- C16.inv_eq_iff / hash: `InvItem`s compare equal exactly when type and hash agree, and equal items hash the same key -/
+theorem C16_inv_eq_iff (a b : InvItem) : (a.eq b = true ↔ a = b) ∧ (a.eq b = true → a.hashKey = b.hashKey) := by
+  cases a; cases b
+  simp [InvItem.eq, InvItem.hashKey]
+
+/-- C16.inv_order_total: exactly one of `a < b`, `a == b`, `b < a` -/
+theorem C16_inv_order_total (a b : InvItem) :
+    (a.lt b = true ∧ a.eq b = false ∧ b.lt a = false) ∨ (a.lt b = false ∧ a.eq b = true ∧ b.lt a = false) ∨
+    (a.lt b = false ∧ a.eq b = false ∧ b.lt a = true) := by
+  obtain ⟨t1, d1⟩ := a
+  obtain ⟨t2, d2⟩ := b
+  simp only [InvItem.lt, InvItem.eq, ne_eq]
+  by_cases ht : t1 = t2
+  · subst ht
+    rcases bytesLt_trichotomy d1 d2 with ⟨h1, h2, h3⟩ | ⟨h1, h2, h3⟩ | ⟨h1, h2, h3⟩
+    · simp [h1, h2, h3]
+    · subst h2; simp [h1]
+    · simp [h1, h2, h3]
+  · have ht' : ¬ t2 = t1 := fun e => ht e.symm
+    rcases Int.lt_trichotomy t1 t2 with h | h | h
+    · have : ¬ t2 < t1 := by omega
+      simp [h, this, ht, ht']
+    · exact absurd h ht
+    · have : ¬ t1 < t2 := by omega
+      simp [h, this, ht, ht']
+
+/-- C16.inv_type_checked: without `dont_check` only the three item types of the table are accepted; with it (the
+parser's path) any type is; the hash must be 32 bytes either way -/
+theorem C16_inv_type_checked (t : Int) (d : Bytes) :
+    (InvItem.new t d false = some ⟨t, d⟩ ↔ t ∈ checkedItemTypes ∧ d.length = 32) ∧
+    (InvItem.new t d true = some ⟨t, d⟩ ↔ d.length = 32) := by
+  constructor
+  · by_cases hm : checkedItemTypes.contains t = true <;> by_cases hl : d.length = 32 <;>
+      simp_all [InvItem.new]
+  · by_cases hl : d.length = 32 <;> simp [InvItem.new, hl]
+
+#guard (PeerAddress.mk 1 (List.replicate 15 0 ++ [1]) 8333).host = "0:0:0:0:0:0:0:1".toList
+#guard (PeerAddress.mk 1 (ip4Header ++ [127, 0, 0, 1]) 8333).host = "127.0.0.1".toList
+#guard bytesLt [1, 2] [1, 2, 0] && !bytesLt [1, 2, 0] [1, 2] && bytesLt [1, 255] [2]
+
+end Pycoin.P2P
